@@ -295,7 +295,7 @@ pub fn run_check(prop: &str, tier: &str) -> i32 {
             let n = crate::names::check_names(&rep);
             run_seq_phases_with(&rep, seq_phases(prop, tier), json!({"file_name_offsets_checked": n}))
         }
-        "C03" | "C05" | "C04" | "C07" | "C08" => run_sched_check(prop, tier),
+        "C03" | "C05" | "C04" | "C07" | "C08" | "C14" => run_sched_check(prop, tier),
         "C09" | "C10" => {
             let rep = Reporter::new(prop, tier);
             let cov = if prop == "C09" {
@@ -659,7 +659,57 @@ pub fn sched_specs(prop: &str, tier: &str) -> Vec<HistSpec> {
     out
 }
 
+pub fn c14_specs(tier: &str) -> Vec<crate::c14::C14Spec> {
+    let thorough = tier == "thorough";
+    let alpha = [Sym::A, Sym::Pfirst, Sym::F, Sym::W];
+    let mut out = vec![];
+    let max_prefix = if thorough { 3 } else { 1 };
+    for plen in 0..=max_prefix {
+        let keep = |_: &[Sym], _: &[SOp]| true;
+        for prefix in schedx::histories(&alpha, plen, &keep) {
+            for tail in 0..=2usize {
+                // prefix ; F ; W... (every outstanding flush) ; [A ...]
+                let mut syms_ops = prefix.clone();
+                syms_ops.push(SOp::Flush);
+                let flushes = syms_ops.iter().filter(|o| matches!(o, SOp::Flush)).count();
+                let waited = syms_ops.iter().filter(|o| matches!(o, SOp::WaitAck)).count();
+                for _ in waited..flushes {
+                    syms_ops.push(SOp::WaitAck);
+                }
+                // unflushed appends after the last acknowledgement
+                let mut m = crate::model::RefLog::new();
+                for o in &syms_ops {
+                    if let SOp::W(w) = o {
+                        m.apply(w);
+                    }
+                }
+                for _ in 0..tail {
+                    let op = schedx::instantiate(Sym::A, &m, 0, 0).unwrap();
+                    if let SOp::W(w) = &op {
+                        m.apply(w);
+                    }
+                    syms_ops.push(op);
+                }
+                for c in [Cfg::records(2), Cfg::records(3)] {
+                    if c.max_records == Some(3) && plen > 2 && !thorough {
+                        continue;
+                    }
+                    // two rotations pending at drop after a non-empty prefix: thorough tier
+                    if c.max_records == Some(2) && tail == 2 && plen >= 1 && !thorough {
+                        continue;
+                    }
+                    out.push(crate::c14::C14Spec { prop: "C14".to_string(), phase1: syms_ops.clone(), cfg: c, max_executions: 300_000 });
+                }
+            }
+        }
+    }
+    out
+}
+
 pub fn sched_shard(prop: &str, tier: &str, shard: usize, of: usize) -> i32 {
+    if prop == "C14" {
+        return c14_shard(tier, shard, of);
+    }
     let specs = sched_specs(prop, tier);
     let mut stats = schedx::SchedStats::default();
     let mut vios: Vec<crate::report::Violation> = vec![];
@@ -693,6 +743,49 @@ pub fn sched_shard(prop: &str, tier: &str, shard: usize, of: usize) -> i32 {
         // keep the report small: one representative per key and shard
         let mut seen = std::collections::BTreeSet::new();
         vios.retain(|v| seen.insert((v.key.clone(), v.what.len() / 64)));
+    }
+    let out = json!({
+        "stats": stats.to_json(),
+        "vios": vios.iter().map(|v| json!({"prop": v.prop, "key": v.key, "what": v.what, "replay": v.replay})).collect::<Vec<_>>(),
+        "machinery": machinery,
+        "samples": samples,
+        "skipped_histories": skipped,
+        "work_items": specs.len(),
+    });
+    println!("{}", out);
+    0
+}
+
+fn c14_shard(tier: &str, shard: usize, of: usize) -> i32 {
+    let specs = c14_specs(tier);
+    let mut stats = schedx::SchedStats::default();
+    let mut vios: Vec<crate::report::Violation> = vec![];
+    let mut machinery: Option<String> = None;
+    let mut samples: Vec<Value> = vec![];
+    let budget_s: u64 = std::env::var("VX_SHARD_WALL_S").ok().and_then(|s| s.parse().ok()).unwrap_or(if tier == "thorough" { 3000 } else { 45 });
+    let deadline = std::time::Instant::now() + Duration::from_secs(budget_s);
+    let mut skipped = 0u64;
+    for (i, s) in specs.iter().enumerate() {
+        if i % of != shard {
+            continue;
+        }
+        if std::time::Instant::now() > deadline {
+            skipped += 1;
+            continue;
+        }
+        let before = stats.executions;
+        if let Err(schedx::Machinery(m)) = crate::c14::explore(s, &mut vios, &mut stats, deadline) {
+            machinery = Some(m);
+            break;
+        }
+        if std::env::var("VX_SHARD_VERBOSE").is_ok() {
+            eprintln!("ITEM {} execs={} cfg={} phase1=[{}]", i, stats.executions - before, s.cfg.short(), schedx::shist_short(&s.phase1));
+        }
+        if samples.len() < 3 {
+            samples.push(json!({"first_instance": schedx::shist_short(&s.phase1), "cfg": s.cfg.short(), "executions": stats.executions - before}));
+        }
+        let mut seen = std::collections::BTreeSet::new();
+        vios.retain(|v| seen.insert(v.key.clone()));
     }
     let out = json!({
         "stats": stats.to_json(),
